@@ -253,7 +253,13 @@ pub fn g_lit_case(s: &mut Src) -> String {
             let n = s.below(7);
             let mut b = String::new();
             for _ in 0..n {
-                b.push_str(s.pick(&["41", "4a", "4A", "4", ",", "+1", "-1", "zz", " ", "0", "FF", "ff", "é", "1", "a"]));
+                if s.coin(1, 3) {
+                    // an arbitrary byte, each digit in either case
+                    let hx = |s: &mut Src| -> char { let d = s.below(16) as u32; let c = std::char::from_digit(d, 16).unwrap(); if s.coin(1, 2) { c.to_ascii_uppercase() } else { c } };
+                    let (h, l) = (hx(s), hx(s)); b.push(h); b.push(l);
+                } else {
+                    b.push_str(s.pick(&["41", "4a", "4A", "4", ",", "+1", "-1", "zz", " ", "0", "FF", "ff", "é", "1", "a", "C3A9", "c3a9", "E282AC", "e2,82,ac", "F09F9880", "C2A0", "0d0a", "0D0A", "80", "EFBBBF"]));
+                }
             }
             let q = if s.coin(1, 2) { '\'' } else { '"' };
             format!("{q}{b}{q}{}", s.pick(&["x", "X"]))
